@@ -123,7 +123,7 @@ class World:
         return p
 
     def run(self, max_attempts=1, timeout=120, env=None, root_certs=(), time_scale="0", conf=None, log_level="debug",
-            extra_args=()):
+            extra_args=(), umask=None):
         e = dict(os.environ)
         e.update({"ACMED_VERIF_TRACE": self.trace, "ACMED_VERIF_TIME_SCALE": str(time_scale),
                   "HOOKREC_STATE": self.hookstate})
@@ -137,7 +137,8 @@ class World:
             cmd += ["--root-cert", r]
         cmd += list(extra_args)
         t0 = time.time()
-        p = subprocess.Popen(cmd, env=e, stdout=subprocess.PIPE, stderr=subprocess.PIPE, text=True)
+        pre = (lambda: os.umask(umask)) if umask is not None else None
+        p = subprocess.Popen(cmd, env=e, stdout=subprocess.PIPE, stderr=subprocess.PIPE, text=True, preexec_fn=pre)
         try:
             out, err = p.communicate(timeout=timeout)
             hung = False
